@@ -40,6 +40,11 @@ pub fn generic_shrinks(case: &Case) -> Vec<Case> {
         let mut c = case.clone();
         c.container.gz = None;
         out.push(c);
+        if g.empty_tail {
+            let mut c = case.clone();
+            c.container.gz.as_mut().unwrap().empty_tail = false;
+            out.push(c);
+        }
         if g.cuts.len() > 1 {
             for i in 0..g.cuts.len() {
                 let mut c = case.clone();
